@@ -73,6 +73,11 @@ pub struct Pool {
 /// Paths between one AS pair of a generated topology, in `n_gens` generations beaconed
 /// `gen_shift` seconds apart (generation g is stamped g*gen_shift later).
 pub fn gen_pool(seed: u64, idx: u64, n_gens: usize, gen_shift: u32) -> Option<Pool> {
+    gen_pool_at(seed, idx, n_gens, gen_shift, BASE_TS, &[1u8, 2, 10, 63, 63, 200, 255, 255])
+}
+
+/// as `gen_pool`, stamped relative to `base_ts` with hop lifetimes drawn from `exps`
+pub fn gen_pool_at(seed: u64, idx: u64, n_gens: usize, gen_shift: u32, base_ts: u32, exps: &'static [u8]) -> Option<Pool> {
     let mut r = Rng::fork(seed, 0x5700_0000 + idx);
     let size = (idx % 5 >= 2) as u8 + (idx % 5 >= 4) as u8;
     let (t, _gp) = gen_topology(&mut r, size);
@@ -87,10 +92,10 @@ pub fn gen_pool(seed: u64, idx: u64, n_gens: usize, gen_shift: u32) -> Option<Po
             // the same beaconing randomness for every generation: same routes, shifted stamps
             let mut r1 = Rng::fork(bseed, 1);
             let mut r2 = Rng::fork(bseed, 2);
-            let base = BASE_TS + g as u32 * gen_shift;
+            let base = base_ts + g as u32 * gen_shift;
             let mut params = move || -> (u32, u16) { (base - r1.below(600) as u32, r1.u16()) };
             // hop lifetimes 675 s .. 24 h: expiry falls inside some histories, not at their start
-            let mut exp = move || -> u8 { *r2.pick(&[1u8, 2, 10, 63, 63, 200, 255, 255]) };
+            let mut exp = move || -> u8 { *r2.pick(exps) };
             let b = refscion::topo::beacon_all(&t, 5, &mut params, &mut exp, true);
             let cores: Vec<UnsignedPathSegment> = b.core_segments.iter().map(|x| to_sciparse_segment(&t, x)).collect();
             let non: Vec<UnsignedPathSegment> = b.noncore_segments.iter().filter(|x| x.last_as() == s || x.last_as() == d).map(|x| to_sciparse_segment(&t, x)).collect();
